@@ -307,6 +307,11 @@ def stretch(o, k):
     return c
 
 
+def prop_excess(o):
+    """by how many ms the observed duration exceeds the property's own bound including its fixed slack (<= 0: it does not)"""
+    return o["dur_ms"] - (time_bound(o) + slack_of(o))
+
+
 def time_only(o):
     """the property fails on this observation only because of a measured duration (never for a HANG)"""
     why = spec_on_impl(o)
@@ -342,9 +347,15 @@ def settle(ctx, rows, tag, have_model):
     # and ran while the scheduling jitter was high are run again with their whole timing (timeout, delays, cancellation)
     # stretched x4, then x8: the model is invariant under scaling of time, the starvation delay is not.  The stretched
     # observation replaces the original one (class suffix " [timing xK]") and is judged like any other.
+    # Stretching may only excuse a case when (a) starvation was actually MEASURED while that very case ran, (b) what is
+    # wrong is the OUTCOME (a deadline error / a missing secondary part where the model has none) -- a duration that
+    # exceeds a bound is never stretched away, the duration stage below deals with it -- and (c) the timeout is short.
     def starved(i):
         o = rows[i]
-        if load_ms(o) <= LOW_JITTER_MS:
+        if load_ms(o) <= LOW_JITTER_MS or o["timeout"] > 1000:
+            return False
+        why = spec_on_impl(o)
+        if not ((1 in bad.get(i, [])) or (bool(why) and not time_only(o))):
             return False
         if o["obs"] == 4:     # an error where the model expects a record (or another request sequence): a deadline?
             return re.search(r"deadline exceeded|Client\.Timeout|i/o timeout|Cannot connect to the Docker daemon|"
@@ -392,6 +403,8 @@ def settle(ctx, rows, tag, have_model):
             for i in still:
                 if not duration_only(i) or load_ms(rows[i]) <= LOW_JITTER_MS:
                     confirmed.add(i)
+                elif time_only(rows[i]) and prop_excess(rows[i]) > 4 * load_ms(rows[i]):
+                    confirmed.add(i)           # the property's own bound is exceeded by more than the measured load explains
             rest = [i for i in still if i not in confirmed]
             if rest:
                 sub = {}
@@ -403,7 +416,7 @@ def settle(ctx, rows, tag, have_model):
                         EXTRA_SLACK[0] = 0
                 for k, i in enumerate(rest):
                     o = rows[i]
-                    over_bound = o["dur_ms"] > time_bound(o) + slack_of(o) + 250 + 3 * jitter_slack(o)
+                    over_bound = prop_excess(o) > 250 + 12 * load_ms(o)
                     if 4 in sub.get(k, []) or over_bound:
                         wide[i] += 1
             pending = [i for i in still if i not in confirmed]
